@@ -194,4 +194,13 @@ theorem utf16_encode_decode (be : Bool) (bs : Bytes) (cps : List Nat) (hall : Al
   rw [encode_utf16]
   exact utf16Enc_dec be bs.length bs cps hall h
 
+theorem utf16be_decode_encode (cps : List Nat) (bs : Bytes) (h : encode .utf16be cps = some bs) :
+    AllBytes bs ∧ decode .utf16be bs = some cps := utf16_decode_encode true cps bs h
+theorem utf16be_encode_decode (bs : Bytes) (cps : List Nat) (hall : AllBytes bs) (h : decode .utf16be bs = some cps) :
+    encode .utf16be cps = some bs := utf16_encode_decode true bs cps hall h
+theorem utf16le_decode_encode (cps : List Nat) (bs : Bytes) (h : encode .utf16le cps = some bs) :
+    AllBytes bs ∧ decode .utf16le bs = some cps := utf16_decode_encode false cps bs h
+theorem utf16le_encode_decode (bs : Bytes) (cps : List Nat) (hall : AllBytes bs) (h : decode .utf16le bs = some cps) :
+    encode .utf16le cps = some bs := utf16_encode_decode false bs cps hall h
+
 end OdxVerif.Text
